@@ -164,6 +164,36 @@ CHECKS = {
             'BertE constructor replaced as in test_server.py; requests '
             'adapter routes the forms\' own HTTP call back into the app',
             'DESIGN.md section 3, C14'),
+    'C16': ('fault_enumeration',
+            'failpoints on every git command of explored jobs (git shim '
+            'fails / hangs the command while printing the credentialed URL) '
+            'with sentinel search over log records incl. chained tracebacks, '
+            'fd-level stdout/stderr, job reports and host comments; scripted '
+            'HTTP session for the GitHub password and App flows',
+            'One child per git command index of explored jobs (sampled in '
+            'the quick tier) x fail/hang x 4 password classes x 2 log levels; '
+            'GitHub flows against 9 reply classes with real JWT signing.',
+            'clone URL built as the github/bitbucket clients build it and '
+            'mapped to the bare repository with url.insteadOf; timeout '
+            'shortened to 1.5 s for the hang placements',
+            'DESIGN.md section 3, C16'),
+    'C19': ('exploration',
+            'runtime monitor on the host PR list and remote w/ refs after '
+            'every job of event-heavy histories; fork differential: event on '
+            'child PR / w tip / source tip vs event on the parent',
+            'Counting and naming oracles from the harness\'s own cascade '
+            'computation after every job; redirect equivalence compared on '
+            'status + full state digest in fork children.',
+            W, 'DESIGN.md section 3, C19'),
+    'C20': ('exploration',
+            'every admin request of a catalogue tried in a fork child at '
+            'sampled states; ref / tag / pending-job oracles from the '
+            'statement',
+            'About 50 admin requests per state (create / delete branch '
+            'classes x branch_from, queue jobs) at states with 0-3 queued '
+            'PRs; cascade rules, C01, archive tags, refusal leaves the remote '
+            'untouched, rebuild re-submits the queue in order.',
+            W, 'DESIGN.md section 3, C20'),
     'C17': ('exploration',
             'exhaustive run lists through the real AggregatedWorkflowRuns; '
             'exhaustive/sampled webhook+poll sequences through the real '
@@ -190,8 +220,9 @@ CHECKS = {
 
 ALL = ['C%02d' % i for i in range(1, 21)]
 # checks validated on the unchanged tree (others stay under not_applicable)
-READY = ['C01', 'C02', 'C03', 'C04', 'C06', 'C07', 'C08', 'C10', 'C11',
-         'C12', 'C14', 'C15', 'C17', 'C18']
+READY = ['C01', 'C02', 'C03', 'C04', 'C05', 'C06', 'C07', 'C08', 'C09',
+         'C10', 'C11', 'C12', 'C14', 'C15', 'C16', 'C17', 'C18', 'C19',
+         'C20']
 
 NOT_YET = 'monitor not built yet in this round (see DESIGN.md section 3); ' \
           'no claim is made'
